@@ -92,7 +92,7 @@ type World struct {
 	CmdExitFree bool  // vcmd exit status symbolic (default true)
 	CmdWriteFree bool // vcmd write outcomes symbolic (default true)
 	Tmpfiles int
-	KillAtDesc string // kill before the first crash point whose description contains this
+	KillAtDesc string // kill before the first crash point whose description ends with this (or contains it followed by a blank)
 	PreemptAtFS bool // every crash point is also a scheduling point
 	CmdHook func(m *Machine, inv *Invocation) // optional
 }
@@ -150,7 +150,7 @@ func (m *Machine) crashPoint(what string) {
 	}
 	n := w.Ops
 	w.Ops++
-	if w.KillAtDesc != "" && strings.Contains(what, w.KillAtDesc) {
+	if w.KillAtDesc != "" && (strings.HasSuffix(what, w.KillAtDesc) || strings.Contains(what, w.KillAtDesc+" ")) {
 		w.KillAtDesc = ""
 		w.event(m, "KILL", what)
 		g := m.cur
@@ -516,6 +516,10 @@ func (m *Machine) dataToBytes(d Value) Value {
 		return &SymBytes{S: x}
 	case Slice, *SymBytes:
 		return x
+	case *Lines:
+		if s, ok := m.linesToData(x); ok {
+			return m.dataToBytes(s)
+		}
 	}
 	return &Ext{Kind: "bytes", F: map[string]Value{"data": d}}
 }
